@@ -57,7 +57,7 @@ class HangDetected(BaseException):
 # the deterministic step limit below.
 OP_LIMIT = float(os.environ.get("VERIF_OP_LIMIT", "600"))
 PAR_LIMIT = float(os.environ.get("VERIF_PAR_LIMIT", "900"))
-SEQ_STEP_LIMIT = int(os.environ.get("VERIF_SEQ_STEP_LIMIT", "5000000"))  # engine-scope line events per sequential op
+SEQ_STEP_LIMIT = int(os.environ.get("VERIF_SEQ_STEP_LIMIT", "20000000"))  # engine-scope line events per sequential op
 
 
 class lib_run:
@@ -78,7 +78,7 @@ class lib_run:
         # deterministic step limit counts - and in the library scope as soon as a thread is spawned
         KERNEL.begin_run(pol, scope_files("engine"), step_cap=None, fault_seed=self.spec["seed"],
                          timeout_fire_p=self.spec.get("timeout_fire_p", 0.0), hang_limit=SEQ_STEP_LIMIT,
-                         lib_scope=scope_files(self.spec.get("scope", "nokw")), engine=scope_files("engine"))
+                         lib_scope=scope_files(self.spec.get("scope", "nokw")), engine=scope_files("guard"))
         KERNEL.main_real_timeout = PAR_LIMIT
         self.started0 = KERNEL.counters["lib_threads_started"]
         KERNEL.trace_current(KERNEL.main)
@@ -122,6 +122,11 @@ class watchdog:
 
 def scope_files(kind):
     pkg = os.path.join(SRC, "multidecoder")
+    if kind == "guard":
+        # what the hang guard counts: the scanning loop itself.  (node.py holds the read-only views -
+        # flatten, iteration - whose cost grows with the tree, not with the scan: counting them made a
+        # megabyte input with an in-task view exceed the limit, a false alarm of the thorough tier.)
+        return {os.path.join(pkg, "multidecoder.py")}
     if kind == "engine":
         return {os.path.join(pkg, n) for n in ("multidecoder.py", "node.py", "hit.py")}
     out = set()
@@ -364,7 +369,7 @@ class W09:
             except Exception as e:  # noqa: BLE001
                 return e
 
-        KERNEL.begin_run(sched.Policy(), scope, hang_limit=SEQ_STEP_LIMIT, lib_scope=scope, engine=scope_files("engine"))
+        KERNEL.begin_run(sched.Policy(), scope, hang_limit=SEQ_STEP_LIMIT, lib_scope=scope, engine=scope_files("guard"))
         try:
             with watchdog(OP_LIMIT * 2):
                 dt = KERNEL.run_tasks([fn], real_timeout=PAR_LIMIT)[0]
@@ -382,7 +387,7 @@ class W09:
             return
         at = 1 + (spec.get("seed", 0) % n)
         self.counters["aborts_injected"] = self.counters.get("aborts_injected", 0) + 1
-        KERNEL.begin_run(sched.Policy(), scope, hang_limit=SEQ_STEP_LIMIT, lib_scope=scope, engine=scope_files("engine"))
+        KERNEL.begin_run(sched.Policy(), scope, hang_limit=SEQ_STEP_LIMIT, lib_scope=scope, engine=scope_files("guard"))
         KERNEL.abort_at = (at, InjectedAbort)
         KERNEL.abort_skip = cleanup_lines(scope)
         state = {"aborted": False}
@@ -458,7 +463,7 @@ class W09:
         for (i, d), fn in zip(jobs, fns):
             # dry run through the kernel with a policy that never pre-empts: counts the steps of
             # every task the job involves (threads the code under test starts included)
-            KERNEL.begin_run(sched.Policy(), scope, hang_limit=SEQ_STEP_LIMIT, lib_scope=scope, engine=scope_files("engine"))
+            KERNEL.begin_run(sched.Policy(), scope, hang_limit=SEQ_STEP_LIMIT, lib_scope=scope, engine=scope_files("guard"))
             KERNEL.site_counts = counts
             try:
                 with watchdog(OP_LIMIT * 2):
@@ -481,7 +486,7 @@ class W09:
         # every schedule executes the same work as the dry run (est steps) plus a little; anything
         # beyond twice that and a million is a loop that does not end
         s.begin_run(policy, scope, step_cap=None, fault_seed=spec.get("seed", 0),
-                    timeout_fire_p=spec.get("timeout_fire_p", 0.0), hang_limit=2 * est_engine + 1_000_000, engine=scope_files("engine"))
+                    timeout_fire_p=spec.get("timeout_fire_p", 0.0), hang_limit=2 * est_engine + 1_000_000, engine=scope_files("guard"))
         try:
             tasks = s.run_tasks(fns, real_timeout=PAR_LIMIT)
         except kernel.SimDeadlock as e:
@@ -1056,7 +1061,7 @@ class W18:
         self.counters["par_builds"] = self.counters.get("par_builds", 0) + 1
         self.counters["par_builds_cold"] = self.counters.get("par_builds_cold", 0) + int(cold)
         policy = sched.make_policy(spec, len(jobs) + 1, 20000)
-        KERNEL.begin_run(policy, scope_files("all"), fault_seed=spec.get("seed", 0), engine=scope_files("engine"))
+        KERNEL.begin_run(policy, scope_files("all"), fault_seed=spec.get("seed", 0), engine=scope_files("guard"))
         KERNEL.preempt_in_module = True
         try:
             with watchdog(PAR_LIMIT):
